@@ -135,9 +135,31 @@ func TestC04(t *testing.T) {
 			f.Spelling.BothDefs, f.Spelling.StaleLegacy = true, true
 			c.Count("shape.stale_legacy_definitions")
 		}
+		var directed []map[string]string
+		if f.Root.Kind == model.KObject && rapid.IntRange(0, 3).Draw(rt, "sharedbase") == 0 {
+			directed = addSharedBaseAllOf(rt, c, f)
+		}
+		var directed2 []map[string]string
+		if f.Root.Kind == model.KObject && rapid.IntRange(0, 3).Draw(rt, "nestedanyof") == 0 {
+			directed2 = addNestedAnyOfShared(rt, c, f)
+		}
 		cs := caseOf(drawDecodeOptions(rt, c, f), []string{f.RelPath}, files...)
 		countShapes(c, f, cs.Config)
 		jobs := buildJobs(rt, c, f.Root, progRoot, plan, o, cs)
+		if len(directed) > 0 {
+			jobs = append(jobs, directedJobs(rt, c, f.Root, o, "sharedbase", directed)...)
+		}
+		if len(directed2) > 0 {
+			// only the verdict: the merged anyOf struct holds the nested values as maps, which loses
+			// nothing; the generic documents that carry the property are dropped for the same reason
+			var kept []core.Job
+			for _, j := range jobs {
+				if !strings.Contains(j.Doc, `"zpayment"`) {
+					kept = append(kept, j)
+				}
+			}
+			jobs = append(kept, directedJobsV(rt, c, f.Root, o, "nestedanyof", directed2, false)...)
+		}
 		for _, j := range jobs {
 			if j.Expect == "reject" {
 				for _, tag := range []string{"ref", "arr", "branch"} {
